@@ -370,6 +370,8 @@ def _model_label(spec, ax):
                 ps.append(i)
         full_scalar = len(spec[1]) == 2 and all(s is not None and not isinstance(s, list) for s in spec[1])
         if not ps:
+            if any(isinstance(s_, list) for s_ in spec[1]):
+                return ('skip', 'no match for list selectors: outcome not fixed by the property')
             return ('raise', 'lookup')
         if full_scalar:
             return ('scalar', ps[0])
@@ -1188,6 +1190,8 @@ def eval_bloc(f, fm, kspec):
     except Exception as e:
         r, exc = None, e
     kt = kspec[0]
+    if kt == 'frame':
+        kt = 'frame-key:' + ('no-common-columns' if all(_is_absent(c) for c in kspec[2]) else 'no-common-rows' if all(_is_absent(r_) for r_ in kspec[1]) else 'overlapping-labels')
     if exc is not None:
         return (False, f'{PID}:Frame.bloc:raises-{type(exc).__name__}:{kt}', f'bloc selection raised {type(exc).__name__}: {exc!s:.120}', True, 'fail')
     if not isinstance(r, sf.Series):
@@ -1210,7 +1214,7 @@ def eval_bloc(f, fm, kspec):
 def bloc_keys(fm, tier):
     nr, nc = fm.nrows, len(fm.kinds)
     size = nr * nc
-    if size <= (12 if tier != 'quick' else 9):
+    if size <= (12 if (tier != 'quick' or fm.rax.kind == 'str') else 9):
         for bits in itertools.product((False, True), repeat=size):
             yield ('arr', list(bits))
     else:
